@@ -144,7 +144,8 @@ def gen_cases(rng, tier):
                "mode": "ctl", "choices": [rng.randint(0, 4) for _ in range(4 * n)],
                "rerun": {"exec2": [i for i in range(n) if rng.random() < 0.5],
                          "choices2": [rng.randint(0, 4) for _ in range(4 * n)],
-                         "swap": rng.sample(range(n), rng.choice([0, 0, 1, 1, 2]))}}
+                         "swap": rng.sample(range(n), rng.choice([0, 0, 1, 1, 2])),
+                         "poke": rng.sample(range(n), rng.choice([0, 1, 1, 2]))}}
     # fine interleaving: callbacks on their own thread, stepped in two halves
     for _ in range(60 if tier == "quick" else 600):
         n = rng.randint(2, 5 if tier == "quick" else 8)
@@ -171,6 +172,10 @@ def corpus():
     yield {"n": 3, "order": [0, 1, 2], "slots": {"0": [[], [], []], "1": [[], [], []], "2": [[0], [1], []]},
            "exec": [], "fails": [0], "mode": "ctl", "choices": [],
            "rerun": {"exec2": [1], "choices2": []}}
+    # a child run by hand between two runs: its stray `ran` must not count in the next run (join 2 waits for 0 AND 1)
+    yield {"n": 3, "order": [0, 1, 2], "slots": {"0": [[], [], []], "1": [[], [], []], "2": [[0], [1], []]},
+           "exec": [], "fails": [2], "mode": "ctl", "choices": [],
+           "rerun": {"exec2": [0, 1], "choices2": [1, 0, 0, 0], "poke": [0]}}
     # a child replaced by a new object under the same label between two runs: the wiring must be derived again
     yield {"n": 3, "order": [0, 1, 2], "slots": {"0": [[], [], []], "1": [[0], [], []], "2": [[1], [0], []]},
            "exec": [], "fails": [2], "mode": "ctl", "choices": [],
@@ -225,6 +230,17 @@ def _run_once(case, choices):
                     new.inputs[slot].connect(up)
             for down in outs:
                 down.connect(new.outputs.o)  # becomes the newest connection of that input
+        # a child run by hand between the two runs (its `ran` reaches the triggers downstream of it while
+        # nothing is running; whatever that leaves behind must not leak into the next run)
+        if rr.get("poke"):
+            for n in ns.values():
+                n.executor = None  # a poked child's `ran` may start its downstream nodes: all of this is local
+        for i in rr.get("poke", []):
+            try:
+                ns[i].run()
+            except BaseException:  # noqa: BLE001  (not ready, ...: nothing to observe here)
+                pass
+        nodes.CALL_LOG.clear()
         res2, seen2 = _one_run(case2, wf, ns, list(rr["choices2"]), rr["exec2"], "ctl")
         res2["epoch"] = 1
         res2["case2"] = case2
